@@ -157,42 +157,74 @@ def r03_3(prog, out):
                 out.violation(key, bi.loc(bb), "a path hands out a message without advancing the lease counter: the next delivery reuses the ack id")
 
 
+def removal_sources(prog, R, sl):
+    """tracker removers, plus bodies whose return value is derived from a tracker removal (the expiry poll)"""
+    removers = set(R.tracker_removers())
+    out = set(removers)
+    for b in prog.facts.lib_bodies():
+        if b.id in out:
+            continue
+        rb = prog.facts.body(b.root) if b.root else b
+        if (b.impl_self or (rb.impl_self if rb else None)) != prog.anchors.ty("OutstandingMessageTracker"):
+            continue
+        bi = prog.info(b.id)
+        if any(prog.qual(b, t.callee.target) in removers for bb, t in bi.calls()):
+            s0 = sl.of(b.id, 0)
+            if s0.calls & removers:
+                out.add(b.id)
+    return out
+
+
+def backlog_source(prog, R, sl, bid, operand, sources, post_targets, depth=0):
+    """where does a value appended to the backlog come from?  ('post' | 'removal' | None, explanation)"""
+    s = sl.of(bid, operand)
+    if s.calls & sources:
+        return "removal", "derived from %s" % sorted(prog.short(c) for c in s.calls & sources)[0]
+    own = [r for r in s.roots if r[0] == "param" and r[1] == bid]
+    if own and bid in post_targets:
+        return "post", "the posted messages"
+    if own and depth < 3:
+        root = prog.facts.body(bid).root or bid
+        kinds = set()
+        n = 0
+        for cid, cb in prog.facts.bodies.items():
+            if cb.crate != "lib":
+                continue
+            ci = prog.info(cid)
+            for cbb, t in ci.calls(lambda c: prog.qual(cb, c.target) == root):
+                n += 1
+                for r in own:
+                    if r[2] - 1 < len(t.args):
+                        k, why = backlog_source(prog, R, sl, cid, t.args[r[2] - 1], sources, post_targets, depth + 1)
+                        kinds.add(k)
+        if n and None not in kinds:
+            return sorted(kinds)[0], "every caller passes a %s value" % "/".join(sorted(kinds))
+    return None, "fields %s, calls %s" % (sorted(f[1] for f in s.fields)[:4], sorted(c.split("::")[-1] for c in s.calls)[:5])
+
+
 @rule("C03", "R03.4", "a message re-enters the backlog only from a post or after its delivery left the outstanding set", floor=3)
 def r03_4(prog, out):
     R = roles(prog)
     sl = Slicer(prog)
     post_targets = set(R.variant_targets(R.sub_actor, R.post_variant()))
-    removers = set(R.tracker_removers())
-    rem_names = {prog.facts.body(r).id for r in removers}
+    sources = removal_sources(prog, R, sl)
     for bid, effs in R.appenders():
         bi = prog.info(bid)
         key = "appender:%s" % prog.short(bid)
-        t = bi.call_at(effs[0].bb)
-        s = sl.of(bid, t.args[1]) if len(t.args) > 1 else None
-        if bid in post_targets:
-            out.holds(key, bi.loc(effs[0].bb), "new messages from the topic (post handler)")
-        elif s is not None and (s.calls & rem_names):
-            out.holds(key, bi.loc(effs[0].bb), "appends exactly what a tracker removal returned (nack)")
-        elif s is not None and any(r[0] == "param" and r[1] == bid for r in s.roots):
-            # fed by a caller: must be the expiry path
-            from props.c01 import expiry_chain
-            ok = None
-            for rid in removers:
-                for cid, cb in prog.facts.bodies.items():
-                    ci = prog.info(cid)
-                    for cbb, ct in ci.calls(lambda c: prog.qual(cb, c.target) == rid):
-                        s0 = sl.of(cid, 0)
-                        if ct.callee.target in s0.calls:
-                            r = expiry_chain(prog, R, sl, cid)
-                            if r[0] and prog.short(bid) in r[1]:
-                                ok = True
-            if ok:
-                out.holds(key, bi.loc(effs[0].bb), "appends the deliveries produced by the expiry poll (taken out of the tracker)")
-            else:
-                out.violation(key, bi.loc(effs[0].bb), "%s puts messages into the backlog that come neither from a post nor from a tracker removal: "
-                              "a message can be queued while a delivery of it is still outstanding" % prog.short(bid))
+        e = effs[0]
+        # the library call that inserts (possibly inside Messages::append): judge the argument handed over at this body's level
+        t = bi.call_at(e.bb)
+        if len(t.args) < 2:
+            out.undecided(key, bi.loc(e.bb), "append call shape not recognised")
+            continue
+        kind, why = backlog_source(prog, R, sl, bid, t.args[1], sources, post_targets)
+        if kind == "post":
+            out.holds(key, bi.loc(e.bb), "new messages from the topic (post handler)")
+        elif kind == "removal":
+            out.holds(key, bi.loc(e.bb), "appends what left the outstanding set: %s" % why)
         else:
-            out.violation(key, bi.loc(effs[0].bb), "%s puts messages into the backlog that come neither from a post nor from a tracker removal" % prog.short(bid))
+            out.violation(key, bi.loc(e.bb), "%s puts messages into the backlog that come neither from a post nor from a tracker removal (%s): "
+                          "a message can be queued while a delivery of it is still outstanding" % (prog.short(bid), why))
 
 
 @rule("C03", "R03.5", "one door: every consumer goes through the single lease request; nothing else pops the backlog", floor=4)
